@@ -72,6 +72,7 @@ var execPrefixes = []string{
 	"internal/byteorder",
 	"internal/itoa",
 	"container/list",
+	"go.uber.org/atomic",
 }
 
 // packages that are stubbed wholesale (no-op / opaque results)
@@ -198,6 +199,11 @@ func (e *Exec) decideAction(fn *ssa.Function) *fnAction {
 	}
 	if in, ok := intrinsics[key]; ok {
 		return &fnAction{kind: actIntrinsic, name: key, intrinsic: in, condExec: condIntrinsics[key]}
+	}
+	if fnPkgPath(fn) == "sync/atomic" {
+		if a := atomicAction(fn); a != nil {
+			return a
+		}
 	}
 	if tgt, ok := e.redirects()[key]; ok {
 		return &fnAction{kind: actRedirect, name: key, target: tgt}
